@@ -30,9 +30,9 @@ func SmallConfig() GenConfig {
 // Info describes what a generated grammar contains.
 type Info struct {
 	Inputs, NoEoi, Empty, LeftRec, RightRec, Lookaheads, Markers, PrecGroups, PrecRules int
-	SameNTInputs int // inputs naming the same nonterminal (eoi and no-eoi)
-	DupInputs    int
-	Useless      bool
+	SameNTInputs                                                                        int // inputs naming the same nonterminal (eoi and no-eoi)
+	DupInputs                                                                           int
+	Useless                                                                             bool
 }
 
 type gb struct {
